@@ -163,7 +163,7 @@ func Generate(seed int64, n int) []Scenario {
 			sc = genRank(rng)
 		case 1:
 			sc = genNoPeer(rng)
-		case 2, 3:
+		case 2, 3, 6, 7, 8:
 			sc = genMixed(rng, "stopmid")
 		case 4, 5:
 			sc = genMixed(rng, "reconnect")
@@ -333,10 +333,10 @@ func genMixed(rng *rand.Rand, kind string) Scenario {
 		}
 		sc.StopAt = &t
 		sc.QueryAfterStop = rng.Intn(2) == 0
-		if rng.Intn(10) < 6 {
+		if rng.Intn(10) < 9 {
 			// Submissions racing Stop: further batches are handed to Query
 			// at the very trigger at which Stop is called.
-			for j, nx := 0, 2+rng.Intn(3); j < nx; j++ {
+			for j, nx := 0, 3+rng.Intn(5); j < nx; j++ {
 				sc.Batches = append(sc.Batches, BatchSpec{Opt: genOpt(rng), Submit: t, NReq: 1 + rng.Intn(3)})
 			}
 		}
